@@ -78,28 +78,41 @@ Theorem C30_dump_object_confined : forall dir u, rsync_wf u -> root_ok dir -> un
 Proof. exact dump_object_confined. Qed.
 Theorem C30_dump_registry_distinct : forall calls i j ni nj d,
   nth_error calls i = Some (Some ni) -> nth_error calls j = Some (Some nj) ->
-  nth_error (name_run reg_empty calls) i = Some (Some d) ->
-  nth_error (name_run reg_empty calls) j = Some (Some d) ->
+  nth_error (name_run reg_init calls) i = Some (Some d) ->
+  nth_error (name_run reg_init calls) j = Some (Some d) ->
   hkey ni = hkey nj.
 Proof. exact registry_distinct. Qed.
-(* outside the known class (repository directories that are plain names): no two dump files coincide *)
+(* every repository directory handed out is a plain new name: a normal path component other than
+   "rsync" (the rsync repository's directory), without a separator *)
+Theorem C30_dump_registry_names_plain : forall calls i n d,
+  nth_error calls i = Some (Some n) -> nth_error (name_run reg_init calls) i = Some (Some d) ->
+  normalb d = true /\ d <> bytes_of "rsync".
+Proof. exact registry_names_plain. Qed.
+Theorem C30_dump_registry_names_no_slash : forall calls r i d, uris_no_slash r ->
+  Forall (fun c => match c with Some n => memb SLASH (h_auth n) = false | None => True end) calls ->
+  nth_error (name_run r calls) i = Some (Some d) -> memb SLASH d = false.
+Proof. exact registry_names_no_slash. Qed.
+(* for repository directories that are plain names no two dump files coincide *)
 Theorem C30_dump_file_distinct : forall base d1 d2 u v,
   root_ok base -> normalb d1 = true -> memb SLASH d1 = false -> normalb d2 = true -> memb SLASH d2 = false ->
   rsync_wf u -> rsync_wf v ->
   fid (dump_object_path (push base d1) u) = fid (dump_object_path (push base d2) v) ->
   d1 = d2 /\ rsync_eqv u v.
 Proof. exact dump_file_distinct. Qed.
-(* inside it the property fails (unchanged code): witnesses by computation *)
-Theorem C30_dump_refuted :
+(* what happened before DumpRegistry::new reserved these names (reg_unreserved; finding F19, repaired by
+   "fix: reserve dump directory names ..."), and what happens now: witnesses by computation *)
+Theorem C30_dump_refuted_before_fix :
   let base := bytes_of "/dump/store" in
   let calls := [Some (Hn "https://../n.xml"); Some (Hn "https://m/n.xml")] in
-  name_run reg_empty calls = [Some (bytes_of ".."); Some (bytes_of "m")] /\
+  name_run reg_unreserved calls = [Some (bytes_of ".."); Some (bytes_of "m")] /\
+  name_run reg_init calls = [Some (bytes_of "..-1"); Some (bytes_of "m")] /\
   fid (dump_object_path (push base (bytes_of "..")) (U "rsync://store/m/a/b/c"))
     = fid (dump_object_path (push base (bytes_of "m")) (U "rsync://a/b/c")) /\
   rsync_eqvb (U "rsync://store/m/a/b/c") (U "rsync://a/b/c") = false.
 Proof. exact dump_refuted_dotdot. Qed.
-Theorem C30_dump_refuted_rsync :
-  name_run reg_empty [None; Some (Hn "https://rsync/n.xml")] = [Some (bytes_of "rsync"); Some (bytes_of "rsync")].
+Theorem C30_dump_refuted_rsync_before_fix :
+  name_run reg_unreserved [None; Some (Hn "https://rsync/n.xml")] = [Some (bytes_of "rsync"); Some (bytes_of "rsync")] /\
+  name_run reg_init [None; Some (Hn "https://rsync/n.xml")] = [Some (bytes_of "rsync"); Some (bytes_of "rsync-1")].
 Proof. exact dump_refuted_rsync. Qed.
 
 (* the digest rendering used by the checker has the assumed shape *)
